@@ -147,8 +147,8 @@ class Operand(ABC):
             return self
 
         is_forced_extended = self.operand_string.startswith(">")
-        if self.value.is_numeric() and not is_forced_extended and \
-                (self.value.is_direct() or old_value.is_explicit_direct()):
+        is_short = self.value.is_direct() and not self.value.is_negative()
+        if self.value.is_numeric() and not is_forced_extended and (is_short or old_value.is_explicit_direct()):
             if self.value.is_negative():
                 raise OperandTypeError("[{}] is not a direct value".format(self.operand_string))
             return DirectOperand(self.operand_string, self.instruction, DirectNumericValue(self.value.int))
